@@ -150,6 +150,7 @@ func linEqualUpToSign(a, b Lin) bool {
 
 func runC28(c *Ctx) {
 	runC28Extra(c)
+	runC28Second(c)
 	const pk = "icon/merkle/hexary"
 	maxCh, _ := c.constVal(pk, "maxChildren")
 	bitsPer := int64(0)
@@ -769,6 +770,112 @@ func runC28Extra(c *Ctx) {
 		}
 		if n < 2 {
 			c.undecided("C28.proof-len", "minProofLenForKey", f.Pos(), fmt.Sprintf("expected 2 flows, found %d", n))
+		}
+	}
+}
+
+// runC28Second: rules added for the second list of independent mutants.
+func runC28Second(c *Ctx) {
+	const pkg = "icon/merkle/hexary"
+	// (1) the single-entry shortcut applies to the top root only, in both places that fold the roots
+	for _, nm := range []string{"GetMerkleHeader", "Finalize"} {
+		f := c.fn(pkg, "accumulator", nm)
+		if f == nil {
+			continue
+		}
+		n := 0
+		for _, cs := range c.calls(f, byCallee("node).GetCopy")) {
+			n++
+			li, _, isLoop := indexLoop(loopHeaderOf(cs.Instr.Block()))
+			if !isLoop {
+				c.undecided("C28.top-root-only", nm+" shortcut", cs.Pos(), "not in an index loop over the roots")
+				continue
+			}
+			// i − len(Roots) + 1 == 0
+			target := linOf(li).add(Lin{T: map[string]int64{"len($r.data.Roots)": 1}, K: -1}, -1)
+			okTop := false
+			for _, alt := range altGuards(cs.Instr.Block()) {
+				okAlt := false
+				for _, g := range alt {
+					p := predOf(g)
+					if p.Kind == "eq" && (sameTerms(p.L, target) && p.L.K == target.K || sameTerms(p.L, target.scale(-1)) && p.L.K == -target.K) {
+						okAlt = true
+					}
+				}
+				okTop = okAlt
+				if !okAlt {
+					break
+				}
+			}
+			c.check(okTop, "C28.top-root-only", nm+": a root is taken over unhashed only if it is the top root", cs.Pos(), "i == len(roots)−1", "the single-entry shortcut is not restricted to the top root: a lower root with one entry is carried up unhashed and the header differs from the other fold")
+			c.requireAt("C28.top-root-only", nm+": the root taken over has exactly one entry", cs.Instr, wEQ("Len() == 1", -1, t(1, `\.Len\(\)$`)))
+		}
+		if n != 1 {
+			c.undecided("C28.top-root-only", nm, f.Pos(), fmt.Sprintf("%d GetCopy sites", n))
+		}
+	}
+	// (2) the empty node has no hash (an empty lower root contributes no carry)
+	if f := c.mustFn(pkg, "node", "Hash"); f != nil {
+		n := 0
+		for _, e := range exitAlts(f) {
+			if isNilConst(e.Results[0]) {
+				continue
+			}
+			n++
+			c.requireGuard("C28.empty-hash", "node.Hash returns a hash", e.pos(), e.Guards, wFalse("node is not empty", `^\$r\.Empty\(\)$`))
+		}
+		if n == 0 {
+			c.undecided("C28.empty-hash", "node.Hash", f.Pos(), "no hashing exit")
+		}
+	}
+	// (3) rewinding folds through Finalize (which stores the partial nodes the rewind needs) and
+	// a rewind to zero drops the roots
+	if f := c.mustFn(pkg, "accumulator", "SetLen"); f != nil {
+		c.check(len(c.calls(f, byCallee("accumulator).Finalize"))) == 1 && len(c.calls(f, byCallee("accumulator).GetMerkleHeader"))) == 0, "C28.rewind-shape", "SetLen takes its header from Finalize", f.Pos(), "Finalize()", "SetLen does not fold through Finalize: the partially filled nodes a rewind has to read back are never stored")
+		n := 0
+		for _, e := range exitAlts(f) {
+			if !isNilConst(e.Results[0]) {
+				continue
+			}
+			if _, zero := holds(e.Guards, wEQ("l == 0", 0, t(1, `^\$0$`))); !zero {
+				continue
+			}
+			n++
+			reset := false
+			for _, b := range f.Blocks {
+				for _, in := range b.Instrs {
+					st, ok := in.(*ssa.Store)
+					if !ok || !dominatesInstr(st, e.Ret) {
+						continue
+					}
+					r := render(st.Addr)
+					if r == "&$r.data" || r == "&$r.data.Roots" {
+						if _, z := holdsAll(altGuards(b), wEQ("l == 0", 0, t(1, `^\$0$`))); z {
+							reset = true
+						}
+					}
+				}
+			}
+			c.check(reset, "C28.rewind-shape", "a rewind to length 0 drops the roots", e.pos(), "data = {0, nil}", "SetLen(0) keeps the old roots: the header of the empty accumulator, and of everything added afterwards, is wrong")
+		}
+		if n == 0 {
+			c.undecided("C28.rewind-shape", "SetLen(0) exit", f.Pos(), "not found")
+		}
+	}
+	// (4) a failed store of a full node fails the Add
+	if f := c.mustFn(pkg, "accumulator", "add"); f != nil {
+		for _, cs := range c.calls(f, byMethod("Set")) {
+			ev := errValueOf(cs.Instr)
+			if ev == nil {
+				c.violate("C28.add-carry", "add checks the result of storing a full node", cs.Pos(), "the error of the bucket write is discarded")
+				continue
+			}
+			for _, e := range successAlts(f) {
+				pathEdgeFilter = nilErrEdgeFilter(ev)
+				tr, reach := pathToExit(f, cs.Instr, e, nil)
+				pathEdgeFilter = nil
+				c.check(!reach, "C28.add-carry", "a failed store of a full node fails the Add", e.pos(), "error edge never reaches success", "add can succeed although the full node was not stored ("+traceString(tr)+"): Len grows while the header commits to a node that is missing")
+			}
 		}
 	}
 }
